@@ -38,12 +38,15 @@ func evalC11(c c11Case) *Failure {
 	}
 	what := fmt.Sprintf("pipeline %v cut at byte %d of %d (%s close); %d requests were delivered completely", pc.strings(), c.Cut, len(data), c.Close, k)
 
-	run := func(stream []byte, full bool) (calls []string, frames []resp.Value, out []byte, fl *Failure, inRegistry bool, closes int) {
+	run := func(stream []byte, full bool, gone bool) (calls []string, frames []resp.Value, out []byte, fl *Failure, inRegistry bool, closes int) {
 		srv, rec := newRecServer()
 		srv.SetAuthCommandHandler(rec)
 		rec.ResultFn = pc.resultFn()
 		conn := connsim.NewPreloaded(1, [][]byte{stream})
 		conn.FullClose = full
+		if gone {
+			conn.WriteFailAfter = 0 // the peer went away right after sending: no reply can be written at all
+		}
 		o := connsim.Serve(srv, conn, serveTimeout())
 		if o.TimedOut {
 			return nil, nil, nil, stallFailure("c11", what), false, 0
@@ -78,13 +81,25 @@ func evalC11(c c11Case) *Failure {
 			return 0
 		}
 		return ends[k-1]
-	}()], false)
+	}()], false, false)
 	if fl != nil {
 		return fl
 	}
-	gotCalls, gotFrames, out, fl, inReg, closes := run(data[:c.Cut], c.Close == "full")
+	gotCalls, gotFrames, out, fl, inReg, closes := run(data[:c.Cut], c.Close == "full", c.Close == "gone")
 	if fl != nil {
 		return fl
+	}
+	if c.Close == "gone" {
+		// no reply can be written, so calls cannot be attributed to requests by the number of replies: compare the sequence only
+		strip := func(cs []string) []string {
+			out := make([]string, len(cs))
+			for i, x := range cs {
+				out[i] = x[:strings.LastIndex(x, "#")]
+			}
+			sort.Strings(out)
+			return out
+		}
+		gotCalls, wantCalls = strip(gotCalls), strip(wantCalls)
 	}
 	// QUIT among the complete requests ends everything there; the reference run handles it identically.
 	if fmt.Sprint(gotCalls) != fmt.Sprint(wantCalls) {
@@ -115,13 +130,13 @@ func evalC11(c c11Case) *Failure {
 func init() { register("c11.cut", evalC11) }
 
 func TestC11(t *testing.T) {
-	h := newHarness(t, "C11", "pipelines of 1..5 well-formed requests from the grammar (every command, options, binary arguments) x EVERY byte offset of the encoded stream as the point where the stream ends x {half-close, full close}. "+
+	h := newHarness(t, "C11", "pipelines of 1..5 well-formed requests from the grammar (every command, options, binary arguments) x EVERY byte offset of the encoded stream as the point where the stream ends x {half-close, full close after the last byte, peer already gone (every reply write fails)}. "+
 		"Oracle (differential): the handler-call log and the replies equal those of the same server fed only the requests whose last byte lies before the cut; the loop returns, closes the connection and leaves the registry. "+
 		"Non-trivial: the cut lies strictly inside a request and at least one request precedes it. Distinct = distinct (stream, cut, close mode).")
 	defer h.Finish()
 	h.Probes()
 
-	h.Rapid("cuts", h.N(700, 8000), func(rt *rapid.T) {
+	h.Rapid("cuts", h.N(500, 6000), func(rt *rapid.T) {
 		g := &cmdspec.G{T: rt, Avoid: h.Avoid}
 		n := rapid.IntRange(1, 5).Draw(rt, "n")
 		c := c11Case{}
@@ -142,6 +157,12 @@ func TestC11(t *testing.T) {
 		if len(data) > 400 {
 			return
 		}
+		hasMSetNX := false
+		for i := range pc.Reqs {
+			if pc.cmdName(i) == "MSETNX" {
+				hasMSetNX = true
+			}
+		}
 		isEnd := map[int]bool{0: true}
 		for _, e := range ends {
 			isEnd[e] = true
@@ -155,7 +176,13 @@ func TestC11(t *testing.T) {
 			cls[x] = "cut-between-CR-LF"
 		}
 		for cut := 0; cut <= len(data); cut++ {
-			for _, mode := range []string{"half", "full"} {
+			modes := []string{"half", "full", "gone"}
+			if hasMSetNX {
+				// without replies the calls of a request cannot be told apart from its neighbours', and which key MSETNX
+				// examines first is unspecified: the "gone" mode is not judged for pipelines containing MSETNX
+				modes = modes[:2]
+			}
+			for _, mode := range modes {
 				cc := c
 				cc.Cut, cc.Close = cut, mode
 				k := 0
